@@ -19,7 +19,7 @@ from vlib import Broken, log
 
 ALL_KINDS = '{"s","p","r","i"}'
 
-ORDINARY = ['sibling', 'subdir', 'parent', 'otherdir', 'remote']
+ORDINARY = ['sibling', 'subdir', 'parent', 'otherdir', 'remote', 'remoteq']
 COLLIDERS = ['prefixfile', 'prefixdir', 'prefixtop']
 ALL_LAYOUTS = ORDINARY + COLLIDERS
 
@@ -71,11 +71,11 @@ def mc_expander(ctx, casefile, cont, skip, label, liveness=True):
 
 class Batch:
     def __init__(self, genset, layouts, opts, rots, failsets=('none',), reps=2, names='plain', spell='simple', entry='ExpandSpec',
-                 caches='none', ids='', watchdog='8s'):
+                 caches='none', ids='', watchdog='8s', oddtargets=False):
         self.genset, self.layouts, self.opts, self.rots = genset, layouts, opts, rots
         self.failsets, self.reps, self.names, self.spell, self.entry = failsets, reps, names, spell, entry
         self.caches = caches
-        self.ids, self.watchdog = ids, watchdog
+        self.ids, self.watchdog, self.oddtargets = ids, watchdog, oddtargets
 
 
 def random_graphs(ctx, n, docs, count, dangling=False):
@@ -106,6 +106,8 @@ def observe(ctx, batches):
                 '-entry', b.entry, '-caches', b.caches, '-watchdog', b.watchdog]
         if b.ids:
             args += ['-ids', b.ids]
+        if b.oddtargets:
+            args += ['-oddtargets']
         obsfiles += vlib.run_worker(ctx, 'expander', cases, args, prefix='exp%d' % i)
     return obsfiles
 
@@ -268,16 +270,18 @@ def check_c04(ctx):
                    Batch(G_N3_ALL_WF, ['sibling', 'subdir', 'remote'], four, [0, 1, 2, 3], reps=1, ids='abs,relfile,frag,reldir', watchdog='4s'),
                    Batch(('random', 16, 4, 4000, True), ['sibling+subdir+parent', 'remote+prefixdir+otherdir'], four, [sd['rot']], reps=1, spell='varied'),
                    Batch(('random', 40, 6, 500, True), ['sibling+subdir+parent+otherdir+remote'], four, [sd['rot']], reps=1, names='special', spell='varied'),
+                   Batch(G_N3_ALL_ANY, ['sibling', 'subdir'], four, [0, 1], reps=1, oddtargets=True),
                    Batch(G_N4_S_WF, ['sibling'], ['000'], [sd['rot'] % 3], reps=1, ids='abs,relfile,frag', watchdog='4s')]
         mcs = [(G_N3_ALL_ANY, False, False, 'any_strict_full'), (G_N3_ALL_ANY, True, False, 'any_cont_full'),
                (G_N3_ALL_ANY, False, True, 'any_strict_skip'), (G_N3_ALL_ANY, True, True, 'any_cont_skip'),
                (G_N4_S_WF, False, False, 'N4S_strict_full')]
     else:
-        batches = [Batch(G_N3_ALL_ANY, [ALL_LAYOUTS[ctx.seed % 8]], four, [sd['rot']], failsets=('none',),
+        batches = [Batch(G_N3_ALL_ANY, [ALL_LAYOUTS[ctx.seed % len(ALL_LAYOUTS)]], four, [sd['rot']], failsets=('none',),
                          reps=1, names=sd['names'], spell=sd['spell']),
-                   Batch(G_N4_S_WF, [ALL_LAYOUTS[(ctx.seed + 3) % 8]], ['000', '110'], [sd['rot']], reps=1),
+                   Batch(G_N4_S_WF, [ALL_LAYOUTS[(ctx.seed + 3) % len(ALL_LAYOUTS)]], ['000', '110'], [sd['rot']], reps=1),
                    Batch(G_N3_ALL_WF, ['sibling'], ['000', '010'], sorted({ctx.seed % 4, 3}), reps=1, ids='abs,relfile,frag,reldir', watchdog='4s'),
-                   Batch(('random', 14, 3, 300, True), ['sibling+subdir', 'parent+remote'], four, [sd['rot']], reps=1, spell='varied')]
+                   Batch(('random', 14, 3, 300, True), ['sibling+subdir', 'parent+remote'], four, [sd['rot']], reps=1, spell='varied'),
+                   Batch(G_N3_ALL_ANY, ['sibling'], ['000', '010'], [sd['rot']], reps=1, oddtargets=True)]
         mcs = [(G_N3_ALL_ANY, False, False, 'any_strict_full'), (G_N3_ALL_ANY, True, True, 'any_cont_skip'),
                (G_N4_S_WF, False, False, 'N4S_strict_full')]
     rep = run_batches(ctx, batches, ['c04', 'c04work'], mcs, nontrivial=lambda o, v: v['cyclic'] or not v['wf'],
@@ -308,7 +312,7 @@ def check_c08(ctx):
         mcs = [(G_N3_ALL_ANY, False, False, 'any_strict_full'), (G_N3_ALL_ANY, True, False, 'any_cont_full'),
                (G_N3_ALL_ANY, False, True, 'any_strict_skip'), (G_N3_ALL_ANY, True, True, 'any_cont_skip')]
     else:
-        batches = [Batch(G_N3_ALL_ANY, ['sibling', ALL_LAYOUTS[1 + ctx.seed % 7]], modes, [sd['rot']], failsets=('none', '1'),
+        batches = [Batch(G_N3_ALL_ANY, ['sibling', ALL_LAYOUTS[1 + ctx.seed % (len(ALL_LAYOUTS) - 1)]], modes, [sd['rot']], failsets=('none', '1'),
                          reps=1, names=sd['names'], spell=sd['spell']),
                    Batch(G_N3_ALL_WF, ALL_LAYOUTS, ['000', '010'], [(sd['rot'] + 1) % 12], failsets=('none', '1'), reps=1)]
         mcs = [(G_N3_ALL_ANY, False, False, 'any_strict_full'), (G_N3_ALL_ANY, True, False, 'any_cont_full')]
